@@ -37,6 +37,33 @@ CHECKS = {
  "C12": dict(engine="seqmc", technique="explicit-state breadth-first search to a fixpoint over collection command histories with vector/map/set models and whole-handle-table comparison",
    text="All reachable handle tables with <= 2 live collections of length <= 2 are enumerated (quick: 11k states, 2.3M transitions); from each state every collection command is run with every live handle, a released / unknown / look-alike handle, boundary indexes and values, and compared with the model: output and the complete handle table (so a failing operation that changes anything is caught).",
    note="Trusted: the models; unordered listings are compared as multisets and sorted in place; flow-control tables of library scripts are abstracted from the state key (documented in the code and DESIGN).", ref="5/C12"),
+ "C07": dict(engine="enum", technique="bounded-exhaustive enumeration of command invocations and short scripts in supervised worker processes (panic / abort / hang detection)",
+   text="Every registered library command (minus the blocking and process-leaving ones the statement excludes) is invoked with every argument tuple of arity <= 2 (quick) / 3 (thorough) from an 18-value pool of awkward values (empty, multi-byte, negative, huge, handles of every kind, released handle, flags, line break, 'a=b'), plus two-step histories, every script of <= 3 / 4 lines over 24 awkward lines, and include cycles; each case runs in a worker process under a watchdog so that a panic, an abort or a hang is pinned to the case in flight.",
+   note="Trusted: catch_unwind, the per-case watchdog (4 s) and the supervisor's restart logic. Allocation bombs are kept out of the pool on purpose.", ref="5/C07"),
+ "C09": dict(engine="enum", technique="bounded-exhaustive enumeration of argument values through every wrapping position with a capture command (direct call as the oracle)",
+   text="Every value up to length 2 (quick) / 4 (thorough) over a 14-character syntax alphabet (plus values that look like variable references) is passed, in first and second position, to a capture command invoked directly and through if / elseif / while / not / stored alias / passed alias / user-function predicate; what the command receives through the wrapper must equal what it receives directly.",
+   note="Trusted: the capture command; failing cases are classified against a transcription of the former re-serialisation path so that a return of that defect and a new one are told apart.", ref="5/C09"),
+ "C10": dict(engine="enum", technique="bounded-exhaustive enumeration of programs built from error sites against the error protocol model",
+   text="Every sequence of up to 2 (quick) / 3 (thorough) error sites (8 contexts x 4 error kinds x 0-2 leading blank lines) under 4 exit_on_error schedules and 3 run modes (text, file, including file) is run; output variable, last-error message / line / source after every site, continuation to the last line, and the failure (message, line, source) under exit_on_error are compared with the protocol model.",
+   note="Trusted: the protocol model and the line bookkeeping of the program builder.", ref="5/C10"),
+ "C13": dict(engine="tapemc", technique="exhaustive placement of the halt-flag store at every command entry (controlled scheduler through command wrappers, second OS thread over a rendezvous channel)",
+   text="For 30 hand-written programs (7 non-terminating) and the generated block programs under fixed answers, the flag is raised at every command entry of the unhalted run up to a horizon of 14 (quick) / 40 (thorough) entries, top level or nested, and before the run, by the running command and by a second thread; the halted run must return Ok, complete exactly the top-level instruction in flight, start no further one and return the variables of that boundary.",
+   note="Trusted: the equivalence argument of DESIGN 5/C13 (the setter's only visible action is one SeqCst store; placements between the same two runner polls are equivalent).", ref="5/C13"),
+ "C14": dict(engine="enum", technique="bounded-exhaustive enumeration of include structures and planted faults against the paste-in-place model",
+   text="Every acyclic include structure over four files in nested directories (fan-out 2, directive first/middle/last, one / two / the same file twice, three path styles, two directions) is written to a scratch directory; parse_file must equal parse_text of the pasted text with per-instruction provenance (file and own line), both must run alike, and every planted fault (missing file at every edge, malformed line and runtime error at every file/line) must be reported with the right kind, file and line.",
+   note="Trusted: the pasting function of the harness; provenance is compared through canonical paths.", ref="5/C14"),
+ "C15": dict(engine="seqmc", technique="explicit-state search to a fixpoint over the Commands API plus exhaustive script-level operation sequences against a name/alias map model",
+   text="All reachable registries over 3 names x alias sets of size <= 2 (1.7k states, fixpoint) with all 54 operations from every state are compared with the model (result, unchanged maps after refusal or lookup, every lookup, no dangling alias); every sequence of <= 3 (quick) / 4 (thorough) script-level operations is run as one script on the full library and its outputs and final tables compared with the same model.",
+   note="Trusted: the map model (30 lines). unalias bookkeeping of the implementation is mirrored (assumption listed in evidence).", ref="5/C15"),
+ "C18": dict(engine="seqmc", technique="explicit-state breadth-first search to a fixpoint over file-command histories on real scratch directories against a file-tree model",
+   text="All reachable directory trees with <= 3 (quick) / 4 (thorough) entries over nested, spaced and non-ASCII paths are enumerated; from each tree every file command of the statement is run on a freshly materialised copy and output plus the complete resulting tree are compared with the model (so a failing operation that changes anything is caught).",
+   note="Trusted: the tree model; the file system is assumed to have no state beyond the tree (no permissions, symlinks, timestamps).", ref="5/C18"),
+ "C19": dict(engine="enum", technique="bounded-exhaustive enumeration of script-implemented command invocations with before/after comparison of variables and handle table",
+   text="Every script-implemented library command (discovered at run time) is invoked with every argument tuple of arity <= 2 (quick) / 3 (thorough) from a 15-value pool in 5 contexts with pre-set caller variables (including look-alikes of the command's internal names); variables afterwards must equal variables before apart from the output variable and documented effects, pre-existing collections must be unchanged and the temporary argument array released.",
+   note="Trusted: the discovery rule (help text contains the 'Show Source' block).", ref="5/C19"),
+ "C20": dict(engine="enum", technique="differential enumeration: duck executable as a subprocess vs. the library run by the harness, over a script pool x invocation forms and the lint grid",
+   text="43 scripts x {file, -e, --eval} and a 5x5x5 lint grid x {parsable, unparsable} x {-l, --lint}, plus --version/--help/-h: exit status, stdout and the 'Error:' line of the duck executable built from /repo are compared with the library's own verdict and output.",
+   note="Trusted: the library linked into the harness is the reference (a defect shared by CLI and library is invisible here; the other properties cover the library).", ref="5/C20"),
 }
 
 NOT_YET = {
@@ -65,7 +92,7 @@ def main():
             na.append({"property_id": pid, "reason": NOT_YET.get(pid, "check not built yet in this revision of /verif (planned in DESIGN.md section 5); nothing is claimed for it")})
     m = {
         "version": 1,
-        "setup_cmd": "cd /verif/harness && cp /repo/Cargo.lock Cargo.lock && CARGO_NET_OFFLINE=true cargo build --release --offline",
+        "setup_cmd": "cd /verif/harness && cp /repo/Cargo.lock Cargo.lock && CARGO_NET_OFFLINE=true cargo build --release --offline && CARGO_NET_OFFLINE=true CARGO_TARGET_DIR=/verif/harness/target-cli cargo build --manifest-path /repo/Cargo.toml -p duckscript_cli --no-default-features --offline",
         "hooks": {
             "guard": "duckscript_verif",
             "enable": "no source hooks exist: the harness links /repo/duckscript and /repo/duckscript_sdk as path dependencies and uses only their public API",
